@@ -31,6 +31,7 @@ import (
 	"os/exec"
 	"path/filepath"
 	"sort"
+	"strconv"
 	"strings"
 	"sync"
 	"syscall"
@@ -219,7 +220,7 @@ func startProdOnce(c prodCfg) (*prodProc, error) {
 	if err != nil {
 		return nil, err
 	}
-	args := []string{"--listen", api, "--metrics_listen", maddr, "--private_key", c.WitSKey, "--poll_interval", c.Poll.String(), "--logtostderr", "--v=2"} // (--v=2 as in cmd/omniwitness/docker-compose.yaml)
+	args := []string{"--listen", api, "--metrics_listen", maddr, "--private_key", c.WitSKey, "--poll_interval", c.Poll.String(), "--logtostderr", "--v=2", "--http_timeout", "2s"} // (--v=2 as in cmd/omniwitness/docker-compose.yaml)
 	if c.DB != "" {
 		args = append(args, "--db_file", c.DB)
 	}
@@ -540,6 +541,14 @@ func prodConcMain(args []string) error {
 						c := wp.Concretise(op.Log, *op.Req, &world.CP{B: 0, N: op.Req.Old})
 						st, ct, rb := postVia(cc, renderBody(wp, bastionStep{Kind: "ok"}, c), 60*time.Second)
 						ev := linEvent{E: "ret", Run: tag, P: pid, V: statusVerdict(st, ct)}
+						if ev.V == "Stale" {
+							// (identity embedding: abstract size = concrete size; anything unparsable is reported as -1 and matches no state)
+							told := -1
+							if n, err := strconv.Atoi(strings.TrimSuffix(string(rb), "\n")); err == nil {
+								told = n
+							}
+							ev.Told = &told
+						}
 						if st == 200 {
 							cp := world.CP{B: 99, N: 99, Lines: 99, Ext: 99}
 							if cb := classifyBody(wp, rb, c.Text); cb.Cls == "sigline" && cb.SigOK {
